@@ -9,6 +9,8 @@ The objects (Model/Feature.lean):
 * `SpecSymbolic m`, `SpecStochastic m`, `SpecConcrete m`   the property statement: every sub-expression of every guard and
                      invariant of every instantiated template, every relational operator, both operand orders, every
                      element of an update list, global and local declarations, channel arrays and local channels.
+                     "A floating-point value" is an operand that is one or is computed from one (`hasFp`: some sub-expression
+                     has floating-point type, whatever the type of the operators above it: `i = fint(d)`, `x >= i + fint(d)`).
 * `shapesOf m`       the placements of restricting features present in `m`; `exceptions cfg` the computed set of
                      placements the configured checker does not inspect (`detects cfg s = false`).
 
